@@ -198,7 +198,7 @@ fn cli_name_selection(ctx: &Ctx) {
         vec!["K", "\u{212a}", "k"],
         vec!["key", "Key", "[Key]x"],
     ];
-    let nfam = ctx.tier.pick(3, families.len());
+    let nfam = families.len();
     let start = (ctx.seed as usize) % families.len();
     let seeds: Vec<u64> = (0..nfam * 2).map(|_| rng.next()).collect();
     par_for(nfam * 2, crate::util::ncpu(), |j| {
